@@ -29,3 +29,5 @@ def run(ctx):
         alac.run(ctx, "C04", 96 if q else 960)
         from .. import adpcmenc       # IMA / MS ADPCM writers: block-size rule at every sample-rate threshold, N <= F < N + B (lean/SfProps/C07Adpcm.lean)
         adpcmenc.run(ctx, "C04", 60 if q else 600)
+        from .. import voxcamp        # OKI/VOX: N <= F < N + 2 for every partition into write calls, odd totals (lean/SfProps/C05Vox.lean vox_frames_bound)
+        voxcamp.run(ctx, "C04", 80 if q else 800)
